@@ -365,8 +365,12 @@ func newGeneratorInterp(L *Loaded) (*Interp, func() *Obj) {
 		return Unk{"overload call"}, true
 	}
 	in.Models["compiler.(*scope).claimTemporary"] = func(in *Interp, pkg *packages.Package, call *ast.CallExpr, recv Val, args []Val) (Val, bool) {
-		in.event("claim", "", call.Pos())
+		in.event("claim", "", call.Pos(), args[0])
 		return args[0], true
+	}
+	in.Models["compiler.(*scope).addTemporary"] = func(in *Interp, pkg *packages.Package, call *ast.CallExpr, recv Val, args []Val) (Val, bool) {
+		in.event("addTemp", "", call.Pos(), args[0], args[1])
+		return TupleV{args[0], args[1]}, true
 	}
 	in.Models["compiler.(*scope).protectTemporary"] = noop
 	in.Models["compiler.(*scope).unprotectTemporary"] = noop
@@ -379,7 +383,8 @@ func newGeneratorInterp(L *Loaded) (*Interp, func() *Obj) {
 		return newObj("scope"), true
 	}
 	in.Models["compiler.(*compiler).NewAlloca"] = func(in *Interp, pkg *packages.Package, call *ast.CallExpr, recv Val, args []Val) (Val, bool) {
-		return &IRVal{Op: "alloca", Class: "ptr"}, true
+		allocaSeq++
+		return &IRVal{Op: "alloca", Class: "ptr", Src: fmt.Sprint("a", allocaSeq)}, true
 	}
 	tyUnk := func(in *Interp, pkg *packages.Package, call *ast.CallExpr, recv Val, args []Val) (Val, bool) {
 		return &IRTy{"?"}, true
@@ -485,11 +490,13 @@ func newGeneratorInterp(L *Loaded) (*Interp, func() *Obj) {
 		return &IRVal{Op: "compareAnyType", Args: []*IRVal{asIR(args[0])}, Class: "i1"}, true
 	}
 	in.Models["compiler.(*compiler).deepCopyInto"] = func(in *Interp, pkg *packages.Package, call *ast.CallExpr, recv Val, args []Val) (Val, bool) {
-		in.event("deepCopy", "", call.Pos())
+		in.event("deepCopy", "", call.Pos(), args[0], args[1])
 		return args[0], true
 	}
 	return in, mk
 }
+
+var allocaSeq int
 
 func runGenerator(L *Loaded, in *Interp, mk func() *Obj, method string, node *Obj) *GenCell {
 	fi := L.Fn("src/compiler.(*compiler)." + method)
